@@ -238,7 +238,7 @@ func init() {
 			return map[string]interface{}{"codons": 3375, "codon_pairs": 4096, "symbols": 32, "max_string_length": 3}
 		},
 		Plan: func(tier string) ([]string, *engine.JobResult) {
-			return []string{"cli", "codons", "pairs", "symbols", "strings:0", "strings:1", "strings:2", "strings:3"}, nil
+			return []string{"libconc-ref", "cli", "codons", "pairs", "symbols", "strings:0", "strings:1", "strings:2", "strings:3"}, nil
 		},
 		Exec: func(tier, job string) *engine.JobResult {
 			res := &engine.JobResult{}
@@ -253,6 +253,21 @@ func init() {
 				return res
 			}
 			switch {
+			case job == "libconc-ref":
+				// the canonical schedule of the concurrent-use scenarios (schedule layer) against the reference tables
+				for _, q := range []string{"ATGGCNYTRTRAAAR TTYCAYMGRNNNATN", "ATGGCNYTRTRAAAR TTYCAYMGRNNNATN ACGTMRWSYKVHDBN"} {
+					c := Call{Cmd: "libconc", Query: q, NCPU: 2}
+					o := c.Canon()
+					var want []string
+					for _, s := range strings.Fields(q) {
+						want = append(want, libUseModel(s))
+					}
+					res.Evals++
+					res.Nontrivial++
+					if o.Outcome != "returned" || o.Out != strings.Join(want, "\n")+"\n" {
+						res.Violate("tables:concurrent-use-canonical", fmt.Sprintf("library functions on %q give %s %q; the reference tables give %q", q, o.Outcome, o.Out, strings.Join(want, "\n")), c17Case{"libconc", q})
+					}
+				}
 			case job == "cli":
 				c17CLI(res, "")
 			case job == "codons":
